@@ -746,6 +746,19 @@ pub fn cmd_spec(args: &[String]) {
                             _ => Ast::Char(*g.r.pick(ALT_ATOMS)),
                         });
                     }
+                    // sometimes a factor is a non-capturing group of two or three terms of atoms (never alone in its
+                    // term and always with at least two alternatives, so that the reference tree shows where it stands)
+                    if v.len() >= 1 && g.r.chance(1, 3) {
+                        let ng = 2 + g.r.below(2);
+                        let mut inner = vec![];
+                        for _ in 0..ng {
+                            let k2 = g.r.below(3);
+                            let mut w2: Vec<Ast> = (0..k2).map(|_| if g.r.chance(1, 6) { Ast::Any } else { Ast::Char(*g.r.pick(ALT_ATOMS)) }).collect();
+                            inner.push(if w2.len() == 1 { w2.pop().unwrap() } else { Ast::Seq(w2) });
+                        }
+                        let pos = g.r.below(v.len() as u64 + 1) as usize;
+                        v.insert(pos, Ast::NonCap(Box::new(Ast::Alt(inner))));
+                    }
                     alts.push(if v.len() == 1 { v.pop().unwrap() } else { Ast::Seq(v) });
                 }
                 (Ast::Alt(alts), f)
